@@ -128,7 +128,11 @@ def program(draw, *, faults=False, members=False, maxdepth=2, max_leaves=6, limi
             # start tyme is passed to do() / ado()
             "ctor_tyme": draw(st.sampled_from([None, None, None, 0.0, 10.0, 3.25])),
             # optionally the doer objects have been run before under another scheduler (re-use)
-            "prerun": draw(st.sampled_from([None, None, None, {"tyme": 7.0, "limit": 2.5}, {"tyme": 0.5, "limit": 1.0}]))
+            "prerun": draw(st.sampled_from([None, None, None, {"tyme": 7.0, "limit": 2.5}, {"tyme": 0.5, "limit": 1.0},
+                                            # the scheduler object itself is reused, doers named again or not
+                                            {"tyme": 7.0, "limit": 2.5, "same": True, "pass": True},
+                                            {"tyme": 3.0, "limit": 50.0, "same": True, "pass": False},
+                                            {"tyme": 0.5, "limit": 1.0, "same": True, "pass": False}]))
             if prerun_ok else None,
             # which run loop drives the program: the plain generator loop or the asyncio coroutine (same semantics, C30)
             "mode": draw(st.sampled_from(["do", "do", "do", "ado"])),
